@@ -56,8 +56,21 @@ func (c cfgSpec) String() string {
 // cfgSources: how a configuration reaches mycoria.New (rotated over cases and routers).
 var cfgSources = []string{"store", "yaml", "json", "yml"}
 
+// loopHost is the loopback host of the current case: the IPv4 or (when the sandbox
+// has it) the IPv6 loopback address; ports are probed on that host.
+var loopHost = "127.0.0.1"
+
+var haveV6 = func() bool {
+	l, err := net.Listen("tcp", "[::1]:0")
+	if err != nil {
+		return false
+	}
+	_ = l.Close()
+	return true
+}()
+
 func freePort() int {
-	l, err := net.Listen("tcp", "127.0.0.1:0")
+	l, err := net.Listen("tcp", loopHost+":0")
 	if err != nil {
 		panic(err)
 	}
@@ -74,10 +87,10 @@ func mkStore(c cfgSpec, id *m.Address, listen []int, connect int, dir string, ta
 	st.Router.Stub = c.stub
 	st.System.DisableTun = true
 	for _, p := range listen {
-		st.Router.Listen = append(st.Router.Listen, fmt.Sprintf("tcp://127.0.0.1:%d", p))
+		st.Router.Listen = append(st.Router.Listen, fmt.Sprintf("tcp://%s:%d", loopHost, p))
 	}
 	if connect > 0 {
-		st.Router.Connect = []string{fmt.Sprintf("tcp://127.0.0.1:%d", connect)}
+		st.Router.Connect = []string{fmt.Sprintf("tcp://%s:%d", loopHost, connect)}
 	}
 	for i := 0; i < c.services; i++ {
 		st.ServiceConfigs = append(st.ServiceConfigs, config.ServiceConfig{Name: fmt.Sprintf("svc%d", i), URL: fmt.Sprintf("tcp://svc%d.myco:80%d", i, i), Public: true, Advertise: true})
@@ -86,7 +99,7 @@ func mkStore(c cfgSpec, id *m.Address, listen []int, connect int, dir string, ta
 		st.FriendConfigs = append(st.FriendConfigs, config.FriendConfig{Name: fmt.Sprintf("friend%d", i), IP: pool[5+i].IP.String()})
 	}
 	if c.api {
-		st.System.APIListen = fmt.Sprintf("127.0.0.1:%d", freePort())
+		st.System.APIListen = fmt.Sprintf("%s:%d", loopHost, freePort())
 	}
 	if c.jsonState {
 		st.System.StatePath = filepath.Join(dir, "state-"+tag+".json")
@@ -131,7 +144,7 @@ type history []string // N = new both, S = start both, P = wait for peering, X =
 func TestC20(t *testing.T) {
 	env := kit.GetEnv()
 	rep := kit.NewReport("C20", env)
-	rep.Rule = "configurations: universe {'', 'u'} x secret {'', 's'} x lite x stub x services {0,1} x friends {0,1} x listeners {1,2 loopback ports} x state storage {memory, json file} x API listener {none, free loopback port} (quick: a pairwise-covering subset of 24, thorough: all 512) for a pair of real relay-only instances (second dials the first), each configuration handed over as a parsed store or written as a .yaml / .json / .yml file and read by the real loader (rotating over cases); plus, for every sixth configuration (thorough: all), three routers on one host of which one has two connect URLs and must peer with both; histories: every well-formed word over {New, Start, Peer, Stop (sequential), Stop (both concurrently)} of up to 3 cycles from a fixed family (start-stop, start-peer-stop, construct-only, stop-without-start, double stop, and their repetitions) in one process; plus the module group alone with stub modules: all assignments of {ok, start fails, stop fails, worker never ends} to 4 modules with at most 2 faults (virtual time): every started module stopped once in reverse order, managers cancelled, result reports the failure; observed: panics/errors of New/Start, link on both sides, return value of Stop, goroutine count back to the pre-New baseline after every cycle; non-trivial = every case (each has >= 1 full cycle); distinct = distinct (configuration, history)"
+	rep.Rule = "configurations: universe {'', 'u'} x secret {'', 's'} x lite x stub x services {0,1} x friends {0,1} x listeners {1,2 loopback ports; IPv4 loopback, every third case IPv6 loopback} x state storage {memory, json file} x API listener {none, free loopback port} (quick: a pairwise-covering subset of 24, thorough: all 512) for a pair of real relay-only instances (second dials the first), each configuration handed over as a parsed store or written as a .yaml / .json / .yml file and read by the real loader (rotating over cases); plus, for every sixth configuration (thorough: all), three routers on one host of which one has two connect URLs and must peer with both; histories: every well-formed word over {New, Start, Peer, Stop (sequential), Stop (both concurrently)} of up to 3 cycles from a fixed family (start-stop, start-peer-stop, construct-only, stop-without-start, double stop, and their repetitions) in one process; plus the module group alone with stub modules: all assignments of {ok, start fails, stop fails, worker never ends} to 4 modules with at most 2 faults (virtual time): every started module stopped once in reverse order, managers cancelled, result reports the failure; observed: panics/errors of New/Start, link on both sides, return value of Stop, goroutine count back to the pre-New baseline after every cycle; non-trivial = every case (each has >= 1 full cycle); distinct = distinct (configuration, history)"
 	rep.Assumptions = []string{
 		"this check runs on real loopback TCP in real time: goroutine schedules are NOT controlled; the property is quantified over configurations and histories only, which are enumerated exhaustively",
 		"waiting uses monotone conditions polled under a 30 s ceiling; no short wall-clock oracle is used",
@@ -194,7 +207,12 @@ func TestC20(t *testing.T) {
 			}
 			evals++
 			nontrivial++
-			desc := fmt.Sprintf("%s history=%v", c, h)
+			// every third case runs over the IPv6 loopback address.
+			loopHost = "127.0.0.1"
+			if haveV6 && caseNo%3 == 2 {
+				loopHost = "[::1]"
+			}
+			desc := fmt.Sprintf("%s history=%v loopback=%s", c, h, loopHost)
 			key := func(k string) string { return "lifecycle/" + k }
 			base := runtime.NumGoroutine()
 			var a, b *mycoria.Instance
@@ -364,7 +382,7 @@ func TestC20(t *testing.T) {
 			mkStore(c, pool[2], []int{pc}, 0, dir, fmt.Sprintf("tc-%d", caseNo)),
 			mkStore(c, pool[1], []int{freePort()}, pa, dir, fmt.Sprintf("tb-%d", caseNo)),
 		}
-		stores[2].Router.Connect = append(stores[2].Router.Connect, fmt.Sprintf("tcp://127.0.0.1:%d", pc))
+		stores[2].Router.Connect = append(stores[2].Router.Connect, fmt.Sprintf("tcp://%s:%d", loopHost, pc))
 		var insts []*mycoria.Instance
 		ok := true
 		for _, st := range stores {
